@@ -77,6 +77,8 @@ def gen_repcode_input(rng: random.Random, max_distance: int = 4, max_cycles: int
         inp["ancilla_state"] = None
     lo = 1 if constructor == "simplified" else 0
     inp["cycles"] = rng.randint(lo, max_cycles)
+    if rng.random() < 0.15:
+        inp["reuse_description"] = True
     return inp
 
 
@@ -109,7 +111,15 @@ def construct(inp: Dict[str, Any]):
     from qce_circuit.library.repetition_code.circuit_constructors import (
         construct_repetition_code_circuit, construct_repetition_code_circuit_simplified)
     fn = construct_repetition_code_circuit if inp["constructor"] == "full" else construct_repetition_code_circuit_simplified
-    return fn(qec_cycles=inp["cycles"], description=description_of(inp), initial_state=initial_state_of(inp))
+    description = description_of(inp)
+    if inp.get("reuse_description"):
+        # one description object serves several constructions: an earlier construction (other constructor, other cycle count,
+        # listed and unrolled) must not change what the next one builds
+        other = construct_repetition_code_circuit_simplified if inp["constructor"] == "full" else construct_repetition_code_circuit
+        warm = other(qec_cycles=inp["cycles"] + 1, description=description, initial_state=initial_state_of(inp))
+        warm.apply_modifiers().operations
+        description.gate_sequences
+    return fn(qec_cycles=inp["cycles"], description=description, initial_state=initial_state_of(inp))
 
 
 def gen_global_settings(rng: random.Random, default: bool = False) -> Dict[str, float]:
